@@ -140,6 +140,9 @@ def a_data(rng):
             items.append(''.join(rng.choice('ABCDEFGHIJ KLMNOP') for _ in range(rng.randrange(1, 8))).strip() or 'X')
         else:
             items.append(a_str(rng, escapes=True))
+    if rng.random() < 0.2:
+        # the closing quote of the last item may be left out at the end of a line; commas and colons inside belong to the item
+        items.append('"' + ''.join(rng.choice('ABC ,:;XYZ') for _ in range(rng.randrange(1, 8))).rstrip())
     return ','.join(items)
 
 
@@ -158,7 +161,7 @@ def a_stmt(rng, targets, allow_if=True):
     if r < 0.45:
         return f"GOSUB {t()}"
     if r < 0.50 and allow_if:
-        return f"IF {a_nexpr(rng)} THEN " + rng.choice([t(), a_stmt(rng, targets, False), f"GOTO {t()}"])
+        return f"IF {a_nexpr(rng)} THEN " + rng.choice([t(), a_stmt(rng, targets, False), f"GOTO {t()}", a_stmt(rng, targets, False), 'REM' + rng.choice(['', ' ']) + a_rem(rng)])
     if r < 0.54:
         return f"ON {a_nexpr(rng, 2)} " + rng.choice(['GOTO', 'GOSUB']) + ' ' + ','.join(t() for _ in range(rng.randrange(1, 4)))
     if r < 0.59:
@@ -222,6 +225,8 @@ def applesoft_program(rng, nlines=None, refs_resolve=True, rem_data=True):
                 break   # REM swallows the rest of the line
             if rem_data and r < 0.14:
                 stmts.append('DATA' + rng.choice(['', ' ']) + a_data(rng))
+                if stmts[-1].count('"') % 2 == 1:
+                    break       # an open string runs to the end of the line
                 continue
             stmts.append(a_stmt(rng, nums if refs_resolve else []))
             if stmts[-1].startswith('IF') or stmts[-1].startswith('ON'):
